@@ -307,7 +307,7 @@ func ruleBatchElapsed(c *Ctx, r *R) {
 			return false
 		}
 		cal := call.Call.StaticCallee()
-		return cal != nil && cal.Name() == "Since" && cal.Pkg != nil && cal.Pkg.Pkg.Path() == "time" && strings.HasSuffix(path(call.Call.Args[0]), "batchStart")
+		return cal != nil && fname(cal) == "Since" && cal.Pkg != nil && cal.Pkg.Pkg.Path() == "time" && strings.HasSuffix(path(call.Call.Args[0]), "batchStart")
 	}
 	isMaxWait := func(v ssa.Value) bool { return strings.HasSuffix(path(v), "maxWait") }
 	// timer durations
@@ -319,13 +319,13 @@ func ruleBatchElapsed(c *Ctx, r *R) {
 				return
 			}
 			cal := call.Call.StaticCallee()
-			if cal == nil || cal.Pkg == nil || cal.Pkg.Pkg.Path() != "time" || (cal.Name() != "NewTimer" && cal.Name() != "Reset") {
+			if cal == nil || cal.Pkg == nil || cal.Pkg.Pkg.Path() != "time" || (fname(cal) != "NewTimer" && fname(cal) != "Reset") {
 				return
 			}
 			n++
 			arg := call.Call.Args[len(call.Call.Args)-1]
 			bin, ok := arg.(*ssa.BinOp)
-			r.ok(ok && bin.Op == token.SUB && isMaxWait(bin.X) && isSince(bin.Y), "stream.BatchFunc|timer-duration|"+cal.Name(), call.Pos(), "the timer must run for maxWait - time.Since(batchStart)")
+			r.ok(ok && bin.Op == token.SUB && isMaxWait(bin.X) && isSince(bin.Y), "stream.BatchFunc|timer-duration|"+fname(cal), call.Pos(), "the timer must run for maxWait - time.Since(batchStart)")
 		})
 	}
 	// the guard in the waiting arm
@@ -394,7 +394,7 @@ func ruleBatchElapsed(c *Ctx, r *R) {
 			res := false
 			instrs(f, func(b *ssa.BasicBlock, i int, in ssa.Instruction) {
 				if call, ok := in.(*ssa.Call); ok {
-					if cal := call.Call.StaticCallee(); cal != nil && (cal.Name() == "NewTimer" || cal.Name() == "Reset") {
+					if cal := call.Call.StaticCallee(); cal != nil && (fname(cal) == "NewTimer" || fname(cal) == "Reset") {
 						res = true
 					}
 				}
